@@ -180,6 +180,34 @@ def ising_reference(sites, edges, J, g, flipped):
     return H
 
 
+def nn_two_operator_check(structure, pairs, sites, seed):
+    """create_nearest_neighbour_hamiltonian with two DIFFERENT (non-symmetric) local operators: for every pair (i, j)
+    of the structure (tree: (parent, child)) the term is A_i (x) B_j. Returns a description of a deviation or None."""
+    from fractions import Fraction
+    from pytreenet.operators.sim_operators import create_nearest_neighbour_hamiltonian
+    if len(sites) > 8 or not pairs:
+        return None
+    rs = np.random.RandomState(seed % (2 ** 31))
+    A = rs.randint(-3, 4, size=(2, 2)) + 1j * rs.randint(-3, 4, size=(2, 2))
+    B = rs.randint(-3, 4, size=(2, 2)) + 1j * rs.randint(-3, 4, size=(2, 2))
+    A[0, 1] += 5
+    try:
+        ham = create_nearest_neighbour_hamiltonian(structure, "A", (Fraction(-3, 2), "c"), local_operator2="B",
+                                                   conversion_dict={"A": A, "B": B, "I2": np.eye(2)}, coeffs_mapping={"c": 0.5})
+    except Exception as e:  # noqa
+        return f"create_nearest_neighbour_hamiltonian with two operators raised {exc_str(e)}"
+    so = sorted(sites)
+    dims = {x: 2 for x in so}
+    H = util.dense_ham(ham, so, dims)
+    ref = np.zeros_like(H)
+    for (a, b) in pairs:
+        ref = ref - 0.75 * util.dense_tp({a: A, b: B}, so, dims)
+    if not np.allclose(H, ref, atol=1e-9):
+        return (f"create_nearest_neighbour_hamiltonian(A, B) is not sum over the pairs (i, j) of A_i B_j "
+                f"(pairs {pairs}; max diff {float(np.max(np.abs(H - ref)))})")
+    return None
+
+
 def dyadic(rng):
     return rng.choice([-2.0, -1.0, -0.5, 0.0, 0.25, 0.5, 1.0, 1.5, 3.0, 0.125])
 
@@ -1016,6 +1044,9 @@ class C19(Prop):
         ob.update(self._ham_obs(ham))
         sites = list(ttn.nodes)
         ob["viol"] = self._ising_oracle(ham, sites, tree_edges_public(ttn), case)
+        if ob["viol"] is None:
+            pc = [(k, c) for k, nd in ttn.nodes.items() for c in nd.children]
+            ob["viol"] = nn_two_operator_check(ttn, pc, sites, case["seed"])
         return ob
 
     def _impl_ising_pairs(self, case):
@@ -1037,6 +1068,8 @@ class C19(Prop):
         ob.update(self._ham_obs(ham))
         sites = [f"n{i}" for i in range(n)]
         ob["viol"] = self._ising_oracle(ham, sites, spairs, case)
+        if ob["viol"] is None:
+            ob["viol"] = nn_two_operator_check(list(spairs), spairs, sites, case["seed"])
         return ob
 
     def _impl_ising_grid(self, case):
